@@ -603,6 +603,21 @@ Proof.
   cbn [fst snd]. rewrite app_nil_r. split; [reflexivity|]. now apply flat_map_open_length.
 Qed.
 
+(* the headline form: request i is answered by output element i, which is the serialisation of a response carrying the
+   request's version, the clock's Date, a Server header, the route's CORS values, and which is self-delimiting *)
+Theorem conn_responses_in_order : forall css reqs, Forall2 (one_request ipp p) css reqs ->
+  Forall (stays_open rs date) reqs ->
+  Forall2 (fun req o => exists resp, respond rs date req = Some resp /\ o = serialize_response resp /\
+                        carries date (r_version req)
+                          (match find_route rs (r_uri req) with Some r => cr_cors r | None => cors_none end) resp)
+          reqs (fst (serve_conn ipp rs date p (aligned_input css []))).
+Proof.
+  intros css reqs HA HO. destruct (conn_all_answered css reqs HA HO) as [-> _]. cbn [fst].
+  clear HA. induction HO as [|req reqs (HU & HR & HK) _ IH]; cbn [flat_map]; [constructor|].
+  unfold response_of at 1. destruct (respond rs date req) as [resp|] eqn:ER; [|congruence]. cbn [app].
+  constructor; [|exact IH]. exists resp. split; [exact ER|]. split; [reflexivity|]. now apply respond_carries.
+Qed.
+
 (* the first request after which the connection does not stay open ends it; later requests are not looked at *)
 Theorem conn_stops_at_first : forall css reqs1 req reqs2 tail,
   Forall2 (one_request ipp p) css (reqs1 ++ req :: reqs2) -> wf_input tail ->
